@@ -1,3 +1,146 @@
 import PysphVerif.Driver.Common
-/-! Line-protocol driver for C01 (stub: not built yet). -/
-def main : IO Unit := PysphVerif.Driver.loopPure (fun _ => "bad-op")
+import PysphVerif.Model.Nnps
+/-!
+Line protocol for C01 (exact rationals):
+
+  `q rs=<rat> tiny=<rat> A x=<rl> y=<rl> z=<rl> h=<rl> A x=… …`
+
+answers one line
+
+  `cs=<rat> hmin=<rat|none> grid=<ok|BAD> tree=<ok|BAD> cache=<ok|BAD> P <d>:<s>:<l0>|<l1>|… P …`
+
+with one `P` block per (destination array d, source array s) in row order
+`d*narrays+s`; `l_i` is the brute-force neighbour list of destination particle
+`i` (comma separated source indices, `_` when empty; the block body is `-` for
+an empty destination array).  `grid` reports whether the Grid-family model
+(3×3×3 stencil candidates with the model's own origin = componentwise minimum)
+returned the same lists (a self-test of the executable model; the theorem
+`nbrs_exact_grid` proves it must), `tree` the same for a one-level tree built
+by splitting the source array in index halves, `cache` for the cache model
+under a two-thread round-robin schedule.
+
+  `cell rs=<rat> tiny=<rat> H h=<rl> H h=<rl> …`  answers `cs=<rat> hmin=<rat|none>`.
+-/
+namespace PysphVerif.Driver.C01
+open PysphVerif.Wire PysphVerif.Nnps
+
+/-- split token list at every occurrence of `sep` -/
+def groups (sep : String) (toks : List String) : List (List String) :=
+  let r := toks.foldl (fun (acc : List (List String)) t =>
+    if t = sep then [] :: acc else
+    match acc with
+    | [] => [[t]]
+    | g :: gs => (t :: g) :: gs) [[]]
+  r.reverse.map List.reverse
+
+def zip4 : List Rat → List Rat → List Rat → List Rat → Option (List (Pt Rat))
+  | [], [], [], [] => some []
+  | x :: xs, y :: ys, z :: zs, h :: hs =>
+    (zip4 xs ys zs hs).map (fun r => { x := x, y := y, z := z, h := h } :: r)
+  | _, _, _, _ => none
+
+def parseArr (toks : List String) : Option (List (Pt Rat)) := do
+  let kv := kvs toks
+  let x ← (lookup kv "x") >>= parseList? parseRat?
+  let y ← (lookup kv "y") >>= parseList? parseRat?
+  let z ← (lookup kv "z") >>= parseList? parseRat?
+  let h ← (lookup kv "h") >>= parseList? parseRat?
+  zip4 x y z h
+
+def showNat (n : Nat) : String := toString n
+
+def minBy (f : Pt Rat → Rat) (ps : List (Pt Rat)) : Rat :=
+  match ps with
+  | [] => 0
+  | p :: rest => rest.foldl (fun m q => if f q < m then f q else m) (f p)
+def maxBy (f : Pt Rat → Rat) (ps : List (Pt Rat)) : Rat :=
+  match ps with
+  | [] => 0
+  | p :: rest => rest.foldl (fun m q => if m < f q then f q else m) (f p)
+
+/-- a one-level tree over `src`: root cube = bounding cube, two leaves holding
+the index halves with their own bounding cubes and hmax -/
+def mkLeaf (src : List (Pt Rat)) (idx : List Nat) : Tree Rat :=
+  let ps := idx.filterMap (fun j => src[j]?)
+  let x0 := minBy (·.x) ps
+  let y0 := minBy (·.y) ps
+  let z0 := minBy (·.z) ps
+  let len := maxA (maxA (maxBy (·.x) ps - x0) (maxBy (·.y) ps - y0)) (maxBy (·.z) ps - z0)
+  Tree.leaf { x := x0, y := y0, z := z0, h := maxBy (·.h) ps } len idx
+
+def mkTree (src : List (Pt Rat)) : Tree Rat :=
+  let n := src.length
+  let all := List.range n
+  let a := all.take (n / 2)
+  let b := all.drop (n / 2)
+  let x0 := minBy (·.x) src
+  let y0 := minBy (·.y) src
+  let z0 := minBy (·.z) src
+  let len := maxA (maxA (maxBy (·.x) src - x0) (maxBy (·.y) src - y0)) (maxBy (·.z) src - z0)
+  Tree.node { x := x0, y := y0, z := z0, h := maxBy (·.h) src } len
+    ((if a.isEmpty then [] else [mkLeaf src a]) ++ (if b.isEmpty then [] else [mkLeaf src b]))
+
+def sortNat (l : List Nat) : List Nat := (l.toArray.qsort (· < ·)).toList
+
+def handleQ (rs tiny : Rat) (arrs : List (List (Pt Rat))) : String :=
+  let hss := arrs.map (fun a => a.map (·.h))
+  let cs := cellSize rs tiny hss
+  let hm := hminScaled rs hss
+  let allp := arrs.flatMap id
+  let o : Pt Rat := { x := minBy (·.x) allp, y := minBy (·.y) allp, z := minBy (·.z) allp, h := 0 }
+  let narr := arrs.length
+  let pairs := (List.range narr).flatMap (fun d => (List.range narr).map (fun s => (d, s)))
+  let res := pairs.map (fun (d, s) =>
+    let dst := arrs.getD d []
+    let src := arrs.getD s []
+    let bf := dst.map (fun q => bruteForce rs src q)
+    let gr := dst.map (fun q => gridNbrs Rat.floor rs cs o src q)
+    let t := mkTree src
+    let tr := dst.map (fun q => sortNat (treeNbrs rs src q t))
+    -- cache model: fills in the order n-1 … 0 alternating between threads 1 and 0,
+    -- then serial gets for every destination
+    let find := fun i => match dst[i]? with
+      | some q => bruteForce rs src q
+      | none => []
+    let sched := ((List.range dst.length).reverse).map (fun i => (i % 2, i))
+    let c0 := Cache.run find Cache.reset (sched.filter (fun td => td.2 % 3 ≠ 0))
+    let views := (List.range dst.length).map (fun i => (Cache.get find c0 i).2)
+    (d, s, bf, decide (gr = bf), decide (tr = bf), decide (views = bf)))
+  let gridOk := res.all (fun r => r.2.2.2.1)
+  let treeOk := res.all (fun r => r.2.2.2.2.1)
+  let cacheOk := res.all (fun r => r.2.2.2.2.2)
+  let blocks := res.map (fun (d, s, bf, _) =>
+    "P " ++ toString d ++ ":" ++ toString s ++ ":" ++
+      (if bf.isEmpty then "-" else "|".intercalate (bf.map (showList showNat))))
+  "cs=" ++ showRat cs ++ " hmin=" ++ (match hm with | some m => showRat m | none => "none") ++
+    " grid=" ++ (if gridOk then "ok" else "BAD") ++
+    " tree=" ++ (if treeOk then "ok" else "BAD") ++
+    " cache=" ++ (if cacheOk then "ok" else "BAD") ++
+    (if blocks.isEmpty then "" else " " ++ " ".intercalate blocks)
+
+def handle (line : String) : String :=
+  match tokens line with
+  | "q" :: rest =>
+    (match groups "A" rest with
+     | [] => "bad-op"
+     | hd :: gs =>
+       let kv := kvs hd
+       match (lookup kv "rs") >>= parseRat?, (lookup kv "tiny") >>= parseRat?, gs.mapM parseArr with
+       | some rs, some tiny, some arrs => handleQ rs tiny arrs
+       | _, _, _ => "bad-op")
+  | "cell" :: rest =>
+    (match groups "H" rest with
+     | [] => "bad-op"
+     | hd :: gs =>
+       let kv := kvs hd
+       match (lookup kv "rs") >>= parseRat?, (lookup kv "tiny") >>= parseRat?,
+             gs.mapM (fun g => (lookup (kvs g) "h") >>= parseList? parseRat?) with
+       | some rs, some tiny, some hss =>
+         "cs=" ++ showRat (cellSize rs tiny hss) ++ " hmin=" ++
+           (match hminScaled rs hss with | some m => showRat m | none => "none")
+       | _, _, _ => "bad-op")
+  | _ => "bad-op"
+
+end PysphVerif.Driver.C01
+
+def main : IO Unit := PysphVerif.Driver.loopPure PysphVerif.Driver.C01.handle
